@@ -551,11 +551,26 @@ fn try_alt(
                     "reply-for-or-after-malformed",
                     format!("message #{} is malformed, yet the service wrote a further reply: {}", at, short(f)),
                 )),
-                _ => out.push(viol(
-                    "C01",
-                    "extra-reply",
-                    format!("reply #{} has no request to belong to: {}", fi, short(f)),
-                )),
+                other => {
+                    if let End::Open { tail } = other {
+                        if !tail.is_empty() {
+                            out.push(viol(
+                                "C06",
+                                "reply-for-truncated-message",
+                                format!(
+                                    "the stream ends in an incomplete message ({} bytes without a terminating NUL), yet the service wrote a further reply: {}",
+                                    tail.len(),
+                                    short(f)
+                                ),
+                            ));
+                        }
+                    }
+                    out.push(viol(
+                        "C01",
+                        "extra-reply",
+                        format!("reply #{} has no request to belong to: {}", fi, short(f)),
+                    ))
+                }
             }
         } else {
             let it = slot_item.unwrap();
